@@ -185,8 +185,8 @@ pub(crate) mod verif_sys {
             assert!(passed == !trip);
             if trip {
                 let s = snap.unwrap();
-                let v = (*s).as_any().downcast_ref::<f64>();
-                assert!(v.is_some() && v.unwrap().to_bits() == observed.to_bits());
+                let v = unsafe { *(Arc::as_ptr(&s) as *const f64) };
+                assert!(v.to_bits() == observed.to_bits());
             }
             kani::cover!(trip && matches!(rule.metric_type, MetricType::Load) && rule.strategy == AdaptiveStrategy::BBR);
             kani::cover!(!trip && matches!(rule.metric_type, MetricType::CpuUsage) && rule.strategy == AdaptiveStrategy::BBR && unsafe { CPU as f64 > rule.threshold });
@@ -245,8 +245,8 @@ pub(crate) mod verif_sys {
                 let want_dyn: Arc<dyn SentinelRule> = want_rule;
                 assert!(Arc::ptr_eq(&e.triggered_rule().unwrap(), &want_dyn));
                 let tv = e.triggered_value().unwrap();
-                let v = (*tv).as_any().downcast_ref::<f64>();
-                assert!(v.is_some() && v.unwrap().to_bits() == want_obs.to_bits());
+                let v = unsafe { *(Arc::as_ptr(&tv) as *const f64) };
+                assert!(v.to_bits() == want_obs.to_bits());
             }
             std::mem::forget(ctx);
             kani::cover!(!t0 && t1);
